@@ -87,3 +87,25 @@ def mjw_contacts(mjw, m, d, w):
                 "friction": d.contact.friction.numpy()[i].astype(np.float64), "solref": d.contact.solref.numpy()[i].astype(np.float64),
                 "solimp": d.contact.solimp.numpy()[i].astype(np.float64), "includemargin": float(d.contact.includemargin.numpy()[i])})
   return out
+
+
+def ill_conditioned(mjm, mjd) -> bool:
+  """engulfed poses: True when MuJoCo's own contact normal or distance moves by more than float32 can resolve under a 1e-6 nudge of the free body
+  (a sphere centre close to the other geom's axis / centre makes the normal a quotient of two small numbers)"""
+  import mujoco
+
+  mujoco.mj_collision(mjm, mjd)
+  ref = contacts_of(mjd)
+  if not ref:
+    return False
+  for ax in range(3):
+    for sgn in (+1, -1):
+      d2 = mujoco.MjData(mjm)
+      d2.qpos[:] = mjd.qpos
+      d2.qpos[ax] += sgn * 1e-6
+      mujoco.mj_kinematics(mjm, d2)
+      mujoco.mj_collision(mjm, d2)
+      r2 = contacts_of(d2)
+      if len(r2) != len(ref) or any(np.abs(a["frame"][0] - b["frame"][0]).max() > 2e-5 or abs(a["dist"] - b["dist"]) > 5e-6 for a, b in zip(ref, r2)):
+        return True
+  return False
